@@ -339,12 +339,13 @@ def check_object(obj, case: dict, how: str = "text") -> Optional[C.Failing]:
         d = canon.diff(c1, canon.canon(o3)) if not isinstance(o3, dict) else "decoder returned a dict"
         if d:
             return C.Failing(sig_of(d, "json", c1), f"{type(obj).__name__} via encoder/decoder classes: {d[:200]}", case, d)
-        f = subclass_roundtrip(obj, c1, case, how)
-        if f:
-            return f
-        f = failed_write_then_reuse(obj, c1, case)
-        if f:
-            return f
+        if case.get("index", 0) < 200 or case.get("index", 0) % 8 == 0:          # every object of a quick run, every eighth beyond
+            f = subclass_roundtrip(obj, c1, case, how)
+            if f:
+                return f
+            f = failed_write_then_reuse(obj, c1, case)
+            if f:
+                return f
     except Exception as e:
         return C.Failing(f"json:roundtrip:raises:{type(e).__name__}", f"{type(obj).__name__}: {e!r}"[:300], case)
     return None
